@@ -264,17 +264,27 @@ func (s *SymStaking) SetValidator(val string, v stakingtypes.Validator) {
 }
 func (s *SymStaking) RemoveValidator(val string) { s.vals[val] = nil }
 
-func (s *SymStaking) delegation(del, val string) *stakingtypes.Delegation {
-	k := DelKey{del, val}
-	if d, ok := s.dels[k]; ok {
-		return d
-	}
+// DeclareDelegation / DeclareValidator fix, up front and in program order, what the staking module holds
+// for the given pair (closed world: anything not declared does not exist).
+func (s *SymStaking) DeclareDelegation(del, val string) {
 	var d *stakingtypes.Delegation
 	if sym.Bool("staking.del.present") {
 		d = &stakingtypes.Delegation{DelegatorAddress: del, ValidatorAddress: val, Shares: sym.DecNonNeg("staking.del.shares")}
 	}
-	s.dels[k] = d
-	return d
+	s.dels[DelKey{del, val}] = d
+	s.ValDels[val] = append(s.ValDels[val], del)
+}
+
+func (s *SymStaking) DeclareValidator(val string) {
+	var v *stakingtypes.Validator
+	if sym.Bool("staking.val.present") {
+		v = &stakingtypes.Validator{OperatorAddress: val, DelegatorShares: sym.DecNonNeg("staking.val.shares"), Tokens: sdk.NewIntFromBigInt(sym.NonNegBig("staking.val.tokens"))}
+	}
+	s.vals[val] = v
+}
+
+func (s *SymStaking) delegation(del, val string) *stakingtypes.Delegation {
+	return s.dels[DelKey{del, val}]
 }
 
 func (s *SymStaking) GetDelegation(ctx sdk.Context, accAddress sdk.AccAddress, valAddress sdk.ValAddress) (stakingtypes.Delegation, bool) {
@@ -294,14 +304,7 @@ func (s *SymStaking) Delegation(ctx sdk.Context, a sdk.AccAddress, v sdk.ValAddr
 }
 
 func (s *SymStaking) GetValidator(ctx sdk.Context, addr sdk.ValAddress) (stakingtypes.Validator, bool) {
-	k := addr.String()
-	v, ok := s.vals[k]
-	if !ok {
-		if sym.Bool("staking.val.present") {
-			v = &stakingtypes.Validator{OperatorAddress: k, DelegatorShares: sym.DecNonNeg("staking.val.shares"), Tokens: sdk.NewIntFromBigInt(sym.NonNegBig("staking.val.tokens"))}
-		}
-		s.vals[k] = v
-	}
+	v := s.vals[addr.String()]
 	if v == nil {
 		return stakingtypes.Validator{}, false
 	}
